@@ -92,7 +92,7 @@ theorem const_literal_typed (n : Nat) (S : Schema) (o : Oracle) (flag : Bool) (t
 
 /-- KNOWN FINDING KF-C05-1, machine-checked: with `$s = "notint"`, the literal `[$s]` at an `[Int]`
     position coerces to `["notint"]`, which is NOT a value of type `[Int]`. -/
-def Sw : Schema := ⟨[.scalar "Int", .scalar "String"], "Query", none, none⟩
+def Sw : Schema := { types := [.scalar "Int", .scalar "String"], queryType := "Query", mutationType := none, subscriptionType := none }
 def ow : Oracle := ⟨fun _ => none⟩
 theorem nested_variable_untyped_witness :
     coerceLiteral 5 Sw ow (some [("s", .str "notint")]) false (.list (.named "Int")) (.list [.var "s"])
